@@ -59,7 +59,7 @@ GXX_E1 = ["g++", "-std=gnu++17", "-O1", "-g", "-fsanitize=address,undefined", "-
           "-D_GLIBCXX_DEBUG", "-fno-omit-frame-pointer"]
 CLANG_FUZZ = ["clang++", "-std=gnu++17", "-O1", "-g", "-fsanitize=fuzzer-no-link,address,undefined",
               "-fno-sanitize-recover=undefined", "-D_GLIBCXX_DEBUG", "-fno-omit-frame-pointer"]
-CLANG_TSAN = ["clang++", "-std=gnu++17", "-O1", "-g", "-fsanitize=thread", "-fno-omit-frame-pointer"]
+CLANG_TSAN = ["clang++", "-std=gnu++17", "-O1", "-g", "-fsanitize=thread", "-fno-omit-frame-pointer", "-fno-inline"]
 GXX_SCHED = ["g++", "-std=gnu++17", "-O1", "-g", "-fsanitize=address,undefined", "-fno-sanitize-recover=undefined",
              "-DCAPPUCCINO_VERIF_HOOKS", "-fno-omit-frame-pointer", "-pthread"]
 
